@@ -32,6 +32,21 @@ CHECKS = {
             "on every corpus program that uses the flag and a generic witness set; compared with a cold run of the last "
             "option set. Only (program, option) pairs whose cold outputs differ count (witness).",
             "fixture stubs on both sides; options without a witness program are listed as coverage gaps", "4/C09"),
+    "C03": ("model_checking",
+            "exhaustive edit-history tree (depth-bounded) on the real dmypy Server, fork-cloned at every node",
+            "ALL legal single-file-edit histories up to depth 3 (Q) / 4-5 (T) over 9 universes x {follow_imports=error with "
+            "all files, follow_imports=normal with the root only, start from a fine-grained cache} x {check, cmd_recheck}; "
+            "the real Server answers after every edit and every node is compared with a non-incremental build of that "
+            "node's files. A self-test asserts the fork-cloned tree observes what a straight-line replay observes.",
+            "fixture stubs on both sides; owned monotone mtimes; when several files carry a blocking error at once any "
+            "blocker a fresh run reports for some file order is accepted", "4/C03"),
+    "C15": ("exploration",
+            "exhaustive boundary-operand enumeration of compiled one-operation functions vs the interpreter",
+            "1020 generated one-operation functions (every operator x operand static types incl. i64/i32/i16/u8, literals, "
+            "conversions) compiled by mypyc from the working tree at opt 0 and 3; ALL operand tuples from the boundary set "
+            "(and all 65536 u8 pairs / i16 values) evaluated in both and compared: same value and type or same exception type.",
+            "64-bit gcc platform; signed native-int overflow and float->native conversions exercised but not judged "
+            "(documented as undefined)", "4/C15"),
 }
 
 NOT_BUILT = {}
